@@ -464,5 +464,5 @@ class ExactModel(Model):
         theory = self.theory_from_parameters(pars)
         try:
             return self.calc_func(detector, scatterer, theory=theory, **optics)
-        except (MultisphereFailure, InvalidScatterer):
+        except (MultisphereFailure, TmatrixFailure, InvalidScatterer):
             return -np.inf
